@@ -422,7 +422,7 @@ func (w *worker) run(jobs []job, csName string) []outcome {
 				if err == nil {
 					if f := evalSafe(fresh, w.cs); f != walked {
 						o.mismatches = append(o.mismatches, common.Mismatch{Property: "C17", Kind: "failing-input",
-							Ops: []string{"coeffs " + csName, "fen " + j.fen, "moves " + strings.Join(played, " "), "eval", "fen " + fen2, "eval"},
+							Ops:  []string{"coeffs " + csName, "fen " + j.fen, "moves " + strings.Join(played, " "), "eval", "fen " + fen2, "eval"},
 							Impl: walked + " vs " + f, Model: "", Note: "evaluation depends on how the position was reached"})
 					}
 				}
